@@ -148,6 +148,10 @@ def run(ctx):
     n = 150 if ctx.tier == "quick" else 2000
     nval = 6 if ctx.tier == "quick" else 20
     srcs = HAND + [d[0] for d in liftlib.gen_definitions(ctx.rng, n, max_stmts=6)]
+    # templates with signal arrays assigned element by element in loops, component ports and tuple forms (the generator of C08): the shapes
+    # the statement generator above does not produce
+    from checks import c08 as _c08
+    srcs += [_c08.gen_template(ctx.rng, k) for k in range(n // 8)]
     stats = collections.Counter()
     l1 = l2 = 0
     samples = []
